@@ -10,10 +10,16 @@ F_SD = "quantarhei/qm/corfunctions/spectraldensities.py"
 TYPES = {"OB": "OverdampedBrownian", "HT": "OverdampedBrownian-HighTemperature", "VD": "Value-defined"}
 
 
-def component(cx, time, kind, idx, T):
+def component(cx, time, kind, idx, T, concrete_bath=False):
     """one correlation function of the given kind with symbolic parameters (internal units)"""
     import quantarhei as qr
     lam = cx.real("lam%d" % idx, 0.001, 0.01)
+    if concrete_bath and kind != "VD":
+        # only the reorganisation energy symbolic: the data are lam times concrete numbers, so a wrong number
+        # of Matsubara terms or a wrong branch shows up in a linear query
+        params = dict(ftype=TYPES[kind], reorg=lam, cortime=100.0 - 20 * idx, T=T, matsubara=2)
+        with qr.energy_units("int"):
+            return qr.CorrelationFunction(time, params)
     if kind == "VD":
         vals = cx.cplx_array("v%d" % idx, time.length)
         params = dict(ftype=TYPES[kind], reorg=lam, T=T)
@@ -38,9 +44,11 @@ def same_params(cx, label, got, want):
 
 
 @harness("C09", "addition",
-         quick=[dict(kinds=list(k)) for k in (("OB", "HT", "OB"), ("HT", "OB", "HT"), ("OB", "OB", "VD"),
+         quick=[dict(kinds=["OB", "HT", "OB"], concrete_bath=True)] +
+               [dict(kinds=list(k)) for k in (("OB", "HT", "OB"), ("HT", "OB", "HT"), ("OB", "OB", "VD"),
                                               ("HT", "OB", "VD"))],
-         thorough=[dict(kinds=list(k)) for k in itertools.product(("OB", "HT"), ("OB", "HT"), ("OB", "HT", "VD"))] +
+         thorough=[dict(kinds=["OB", "HT", "OB"], concrete_bath=True), dict(kinds=["OB", "OB"], concrete_bath=True)] +
+                  [dict(kinds=list(k)) for k in itertools.product(("OB", "HT"), ("OB", "HT"), ("OB", "HT", "VD"))] +
                   [dict(kinds=["OB", "HT", "OB", "HT"]), dict(kinds=["HT", "HT", "OB", "VD"])],
          functions=[F_CF + ":CorrelationFunction.__init__", F_CF + ":CorrelationFunction.__add__",
                     F_CF + ":CorrelationFunction.__iadd__", F_CF + ":CorrelationFunction.add_to_data",
@@ -53,13 +61,16 @@ def same_params(cx, label, got, want):
                "groupings (a+b)+c, a+(b+c), a+=b+=c and a copy rebuilt from the parameter list",
          out="FFT-based component types (UnderdampedBrownian, Underdamped, B777, CP29): their data come from numerical "
              "transforms; measured vs declared reorganisation energy (numerical quadrature)")
-def addition(cx, kinds):
+def addition(cx, kinds, concrete_bath=False):
     import quantarhei as qr
     with cx.concrete():
         time = qr.TimeAxis(0.0, 3, 10.0)
-    T = cx.real("T", 100.0, 300.0)
-    cx.assume(T > 0, "temperature > 0")
-    comps = [component(cx, time, k, i, T) for i, k in enumerate(kinds)]
+    if concrete_bath:
+        T = 300.0
+    else:
+        T = cx.real("T", 100.0, 300.0)
+        cx.assume(T > 0, "temperature > 0")
+    comps = [component(cx, time, k, i, T, concrete_bath) for i, k in enumerate(kinds)]
     cx.assume_denominators_nonzero("parameters away from the poles of the analytic formulas "
                                    "(2 pi kT n != 1/tau, tan(1/(2kT tau)) finite and non-zero)")
     datas = [c.data.copy() for c in comps]
